@@ -3,10 +3,10 @@
 //! generation and replay go through the same code.
 use crate::doc::{self, DParam, DResp, DocOp, Loc, RKey, Site};
 use crate::ep::OpInfo;
-use crate::gallina::{g_json, g_oas};
+use crate::gallina::{g_json, g_oas, g_str};
 use crate::Server;
 use dsverif::live;
-use dsverif::util::{emit, g_bool, g_list, g_opt, g_str, Line, Rng};
+use dsverif::util::{emit, g_bool, g_list, g_opt, Line, Rng};
 use serde_json::{json, Map, Value};
 use std::io::Write;
 
@@ -167,7 +167,10 @@ pub fn build_req(w: &World, op: &DocOp, r: &mut Rng, pick: Pick, omit: Option<&s
                 "multipart/form-data" => {
                     let n = r.range(0, 3);
                     let parts: Vec<Value> = (0..n)
-                        .map(|i| json!([format!("f{}", i), ["hello", "", "a\r\nb", "\u{e9}"][r.below(4)]]))
+                        .map(|i| {
+                            let content = ["hello", "", "a\r\nb", "\u{e9}"][r.below(4)];
+                            json!([format!("f{}", i), content])
+                        })
                         .collect();
                     json!({"ct": ct, "multipart": parts})
                 }
@@ -329,9 +332,10 @@ pub fn run_req(w: &World, case: &Value, out: &mut dyn Write) {
     };
 
     let coq = format!(
-        "(CReq {} {} {} {} (mkReq {} {} {}) {})",
+        "(CReq {} {} {} {} {} (mkReq {} {} {}) {})",
         g_spec(&info.path_spec),
         g_spec(&info.query_spec),
+        g_bool(info.opt_ref_resp),
         g_docop(op),
         g_comps(op, &w.comps),
         format!("[{}]", g_sent.join(";")),
